@@ -684,6 +684,37 @@ func (ex *Exec) scanEffects(n ast.Node, vars map[types.Object]bool, eff *effects
 				if id, ok := fun.(*ast.Ident); ok && ex.pureCallbackField(id.Name) {
 					return true // deterministic callback: no effect
 				}
+				if id, ok := fun.(*ast.Ident); ok && ex.fc != nil && len(ex.fc.Dispatch[id.Name]) > 0 {
+					// dispatch VAR over f1, ...: the effects are those of the candidates (#dispatch[VAR]
+					// proves that the variable is one of them)
+					for _, cn := range ex.fc.Dispatch[id.Name] {
+						cfn, _ := ex.pkg.Types.Scope().Lookup(cn).(*types.Func)
+						var cfc *FuncContract
+						if cfn != nil {
+							cfc = ex.cs.Funcs[funcKey(cfn)]
+						}
+						if cfc == nil {
+							if eff != nil {
+								eff.heapAll = true
+							}
+							continue
+						}
+						for _, mo := range cfc.Modifies {
+							if eff == nil {
+								continue
+							}
+							switch {
+							case strings.HasPrefix(mo, "ghost."):
+								eff.ghost[strings.TrimPrefix(mo, "ghost.")] = true
+							case strings.HasPrefix(mo, "heap "):
+								eff.comps[ex.qualifyComp(strings.TrimSpace(strings.TrimPrefix(mo, "heap ")), cfc)] = true
+							default:
+								eff.heapAll = true
+							}
+						}
+					}
+					return true
+				}
 				if sel, ok := fun.(*ast.SelectorExpr); ok && info.Selections[sel] != nil && info.Selections[sel].Kind() == types.FieldVal && ex.pureCallbackField(sel.Sel.Name) {
 					return true
 				}
